@@ -33,7 +33,7 @@ def _bv_of(v, w):
 @register
 class ChunkTransformer(Contract):
     target = "neuroglancer_scripts.data_types.get_chunk_dtype_transformer.<locals>.chunk_transformer"
-    props = ("C11",)
+    props = ("C11", "C01", "C13")   # C01 and C13 state their value mapping through this function
     use_at_call_sites = False
     configs = tuple(itertools.product(IN_DTYPES, OUT_DTYPES, (True, False), ("writeable",))) + \
         tuple((i, o, False, "readonly") for i, o in (("float64", "uint8"), ("int16", "uint16"), ("uint8", "uint8"), ("float32", "float32")))
